@@ -2,6 +2,8 @@
 //@ fn bits::bit_field_vec::AtomicBitFieldVec::{get_atomic, get_atomic_unchecked, set_atomic, set_atomic_unchecked}
 //@ harness atomic_bfv_u64 props=C05,C14,C12 timeout=900
 //@ harness atomic_bfv_u8 props=C05,C14,C12 timeout=900
+//@ harness atomic_bfv_oob props=C05,C12 timeout=900
+//@ harness atomic_bfv_oob_empty props=C05,C12 timeout=900
 //@ assume sequential semantics of the atomic operations only (one thread): interleavings are C13, not applicable; backend [Atomic; 3]; the compare-exchange loops are given unwind 2 with the unwinding assertion on (a sequential CAS succeeds at once)
 #[cfg(kani)]
 mod verif_kani_atomic {
@@ -40,6 +42,34 @@ mod verif_kani_atomic {
                 kani::cover!(width == bits, "vacuity probe: full width reachable");
             }
         };
+    }
+    /// an index at or beyond the length (in particular any index of an EMPTY vector) is rejected by a panic before any
+    /// storage access: every failure Kani finds must be that panic, never an out-of-bounds read or write
+    #[kani::proof]
+    #[kani::unwind(2)]
+    #[kani::should_panic]
+    fn atomic_bfv_oob() {
+        let w0: u64 = kani::any(); let w1: u64 = kani::any();
+        let words: [AtomicU64; 2] = [AtomicU64::new(w0), AtomicU64::new(w1)];
+        let width: usize = kani::any(); let len: usize = kani::any(); let i: usize = kani::any(); let v: u64 = kani::any(); let write: bool = kani::any();
+        kani::assume(width <= 64 && len <= 128 && len * width <= 128 && i >= len);
+        let mask: u64 = if width == 0 { 0 } else { u64::MAX >> (64 - width) };
+        kani::assume(v & mask == v);
+        let a = unsafe { AtomicBitFieldVec::<u64, [AtomicU64; 2]>::from_raw_parts(words, width, len) };
+        if write { a.set_atomic(i, v, Ordering::Relaxed); } else { let _ = a.get_atomic(i, Ordering::Relaxed); }
+    }
+    /// the same over an EMPTY backend (length 0): any access must panic before touching storage
+    #[kani::proof]
+    #[kani::unwind(2)]
+    #[kani::should_panic]
+    fn atomic_bfv_oob_empty() {
+        let words: [AtomicU64; 0] = [];
+        let width: usize = kani::any(); let i: usize = kani::any(); let v: u64 = kani::any(); let write: bool = kani::any();
+        kani::assume(width <= 64);
+        let mask: u64 = if width == 0 { 0 } else { u64::MAX >> (64 - width) };
+        kani::assume(v & mask == v);
+        let a = unsafe { AtomicBitFieldVec::<u64, [AtomicU64; 0]>::from_raw_parts(words, width, 0) };
+        if write { a.set_atomic(i, v, Ordering::Relaxed); } else { let _ = a.get_atomic(i, Ordering::Relaxed); }
     }
     atomic_harness!(atomic_bfv_u64, u64, AtomicU64);
     atomic_harness!(atomic_bfv_u8, u8, AtomicU8);
